@@ -36,7 +36,9 @@ LEVEL_NOTE = ("includes run with the loader thread executed inside start() (a le
 DESIGN_REF = "DESIGN.md 4 (C12)"
 ASSUMPTIONS = ["generator constrained to the quantifier: no chained or nested links"]
 
-NAMES = ["a", "b", "c", "d", "e"]
+# "A"/"a": names that differ in case only are different names
+NAMES = ["a", "b", "c", "d", "e", "A", "B"]
+REPOS = [None, None, None, "file:///nowhere/term_a.xml", "file:///nowhere/term_b.xml"]
 TYPES = ["t1", "t2"]
 
 
@@ -47,7 +49,9 @@ def gen_tree(rng, n_secs, depth_max):
 
     def node(depth):
         counter[0] += 1
-        nd = {"name": None, "type": rng.choice(TYPES), "props": [], "secs": []}
+        nd = {"name": None, "type": rng.choice(TYPES), "props": [], "secs": [],
+              # stored through the constructor, as a reader does: nothing is fetched
+              "repository": rng.choice(REPOS)}
         for k in range(rng.choice([0, 0, 1, 2])):
             nd["props"].append({"name": "p%d" % k, "values": rng.choice([1, [1, 2], "x", ["a", "b"], 2.5]),
                                 "unit": rng.choice([None, None, "mV"])})
@@ -180,13 +184,15 @@ def generate(run_seed):
     for _ in range(rng.randint(1, 6)):
         script.append(rng.choice(["clean", "finalize", "clean", "save_check", "restart", "cycle"]))
     return {"format": 1, "engine": "links", "property": PROPERTY, "run_seed": run_seed,
-            "profile": profile, "main": main, "inc": inc, "links": links, "script": script}
+            "profile": profile, "main": main, "inc": inc, "links": links, "script": script,
+            "doc_repo": rng.choice(REPOS), "inc_repo": rng.choice(REPOS)}
 
 
 # ---------------------------------------------------------------------------- execution
 def build(odml, roots, parent):
     for nd in roots:
-        sec = odml.Section(name=nd["name"], type=nd["type"], parent=parent)
+        sec = odml.Section(name=nd["name"], type=nd["type"], parent=parent,
+                           repository=nd.get("repository"))
         for p in nd["props"]:
             odml.Property(name=p["name"], values=p["values"], unit=p.get("unit"), parent=sec)
         build(odml, nd["secs"], sec)
@@ -292,12 +298,12 @@ def run_case(case):
     labels = [case["profile"]] + sorted(set("include" if "include" in e else "link"
                                             for e in case["links"]))
     with seams.installed(streams) as env:
-        inc_doc = odml.Document()
+        inc_doc = odml.Document(repository=case.get("inc_repo"))
         build(odml, case["inc"], inc_doc)
         inc_path = os.path.join(env.sandbox, "inc0.xml")
         odml.save(inc_doc, inc_path, "xml")
         inc_url = "file://" + inc_path
-        doc = odml.Document(author="c12")
+        doc = odml.Document(author="c12", repository=case.get("doc_repo"))
         build(odml, case["main"], doc)
         for ent in case["links"]:
             linker = find(doc, ent["linker"])
@@ -313,7 +319,8 @@ def run_case(case):
                 ref = {"include": inc_url + "#" + ent["include"]}
             par = linker.parent
             idx = [i for i, s in enumerate(par.sections) if s is linker][0]
-            new = odml.Section(name=linker.name, type=linker.type, oid=linker.id, **ref)
+            new = odml.Section(name=linker.name, type=linker.type, oid=linker.id,
+                               repository=linker.repository, **ref)
             for ch in list(linker.sections) + list(linker.properties):
                 new.append(ch)
             par.sections[idx] = new
